@@ -2,6 +2,7 @@
 pub mod bins;
 pub mod inst;
 pub mod membal;
+pub mod opts;
 pub mod xducer;
 
 pub fn dispatch(tokens: &[&str]) -> Option<String> {
@@ -9,6 +10,7 @@ pub fn dispatch(tokens: &[&str]) -> Option<String> {
     Some(match *c {
         "bins" => bins::run(args),
         "membal" => membal::run(args),
+        "opts" => opts::run(args),
         "xducer" => xducer::run(args),
         _ => return None,
     })
